@@ -290,6 +290,49 @@ def parse (v : Variant) (text : List Char) : Option (List Char) :=
   | some (_, _, true, s) => some s
   | _ => none
 
+/-! ## one parser object used for several texts (`clear()` between them)
+
+`JoinNumericPlugin::rewrite_gen` creates ONE parser per sentence and calls `clear()` at the start of
+every numeric run.  `to_string(&mut self)` (called by `get_normalized`) writes the rendering back
+into the significand of `total`, so the object that reaches `clear()` is the mutated one. -/
+
+/-- `to_string(&mut self)` with its effect on `self`: the significand becomes the rendering (the
+zero number returns early and is not touched) -/
+def SN.toStrMut (s : SN) : Option (List Char × SN) :=
+  if s.isZero then some (['0'], s) else
+  match s.toStr with
+  | none => none
+  | some r => some (r, { s.normalizeScale with sig := r })
+
+/-- `get_normalized(&mut self)` with its effect on `total` -/
+def Parser.getNormalizedMut (v : Variant) (p : Parser) : Option (List Char × Parser) :=
+  match p.total.toStrMut with
+  | none => none
+  | some (s, t) => some (if v.f5 && p.hasUnit then Parser.stripLeadingZeros s else s, { p with total := t })
+
+/-- the body of `verif_parse` on a parser that is already there (no `clear()` here): the parser
+afterwards and the observation `(n, err, done, normalized)`; `none` = panic -/
+def runOn (v : Variant) (p : Parser) (text : List Char) : Parser × Option (Nat × Nat × Bool × List Char) :=
+  match p.feed v text 0 with
+  | (n, false, p) => (p, if p.anyBad then none else some (n, p.err.code, false, []))
+  | (n, true, p) =>
+    let (d, p) := p.done v
+    if p.anyBad then (p, none) else
+    match p.getNormalizedMut v with
+    | none => (p, none)
+    | some (s, p') => (p', some (n, p.err.code, d, s))
+
+/-- `verif_parse_seq`: the texts one after the other through ONE parser, `clear()` between two texts -/
+def seqGo (v : Variant) : Parser → List (List Char) → Option (List (Nat × Nat × Bool × List Char))
+  | _, [] => some []
+  | p, t :: ts =>
+    match runOn v p t with
+    | (_, none) => none
+    | (p', some r) => (seqGo v p'.clear ts).map (r :: ·)
+
+def verifParseSeq (v : Variant) (texts : List (List Char)) : Option (List (Nat × Nat × Bool × List Char)) :=
+  seqGo v Parser.new texts
+
 /-! ## The plugin: `concat`, `rewrite_gen` -/
 
 structure Node where
@@ -474,6 +517,7 @@ def showNodes (l : List Node) : String :=
 
 /-- every line carries `fix=<six 0/1>` (see `variant?`)
     `C15 parse idx=.. s=<code points>` → `n=<n> err=<e> done=<0|1> norm=<code points>`
+    `C15 seq idx=.. ts=<code points;code points;...>` → `r=<n>:<e>:<done>:<code points>|...` (one parser, `clear()` between the texts)
     `C15 pipeline idx=.. en=<0|1> cats=<masks> path=<b:e:numpos:stored-norm cps:surface cps;...>` → `ok toks=<b:e:cps;...>` -/
 def handle (op : List Char) (toks : List (List Char)) : String :=
   match variant? toks with
@@ -489,6 +533,18 @@ def handle (op : List Char) (toks : List (List Char)) : String :=
         | none => "PANIC"
         | some (n, e, d, norm) =>
           "n=" ++ toString n ++ " err=" ++ toString e ++ " done=" ++ (if d then "1" else "0") ++ " norm=" ++ showCps "," norm
+      | none => "bad-op"
+    | none => "bad-op"
+  | "seq" =>
+    match Wire.kv? toks "ts" with
+    | some ts =>
+      match Wire.allSome ((Wire.items ';' ts).map (cpList? ',')) with
+      | some texts =>
+        match verifParseSeq v texts with
+        | none => "PANIC"
+        | some rs =>
+          "r=" ++ Wire.joinWith "|" (rs.map (fun (n, e, d, norm) =>
+            toString n ++ ":" ++ toString e ++ ":" ++ (if d then "1" else "0") ++ ":" ++ showCps "," norm))
       | none => "bad-op"
     | none => "bad-op"
   | "pipeline" =>
